@@ -165,6 +165,10 @@ impl PusherPreRegistration {
     }
 }
 
+// Verification hook (H2): module-private accessors for harnesses, kept outside the repository.
+#[cfg(any(kani, folo_verif))]
+include!(concat!(env!("FOLO_VERIF_DIR"), "/kani/nm_impl/pusher_hooks.rs"));
+
 #[cfg(test)]
 #[cfg_attr(coverage_nightly, coverage(off))]
 mod tests {
